@@ -65,8 +65,42 @@ def gen_cases(rnd, n):
     return cases
 
 
+def record_number_only_check(res):
+    """the join table is used through its RECORD NUMBER alone (`b.NR` / `bNR` in the select list or in WHERE, no other b-variable): the spellings are
+    interchangeable and give the model's rows, in both ports (D30: Python's init code skipped `b.NR` when the query had no other b-variable)"""
+    import common
+    A = [['x'], ['y'], ['z']]
+    B = [['p'], ['q']]
+    specs = []
+    for kind, kw in (('inner', 'join'), ('left', 'left join')):
+        for on_py in ('a.NR == b.NR', 'NR == bNR', 'aNR == b.NR'):          # the swapped order of two record numbers is refused (C04_record_numbers_swapped_counterexample)
+            for sel in ('b.NR', 'bNR'):
+                q = {'items': [{'e': ['a', 0]}, {'e': ['bnr']}], 'join': {'kind': kind, 'lhs': [None], 'rhs': [None]}}
+                t = 'select a1, %s %s b on %s' % (sel, kw, on_py)
+                specs.append((q, t))
+        q = {'items': [{'e': ['a', 0]}], 'join': {'kind': kind, 'lhs': [0], 'rhs': [0]}, 'where': ['eq', ['bnr'], ['lit', qgen.num(1)]]}
+        for sp in ('b.NR', 'bNR'):
+            specs.append((q, 'select a1 %s b on a1 == b1 where %s == 1' % (kw, sp)))
+    A2 = [['p'], ['q'], ['p']]
+    lines = [engine_corr.make_line({'q': q, 'A': (A2 if q.get('where') else A), 'B': B}, lang_texts={'py': t, 'js': t.replace(' == 1', ' === 1')}) for q, t in specs]
+    mout = [engine_corr.parse_out(o) for o in common.run_model(lines)]
+    for impl_name, runner in (('py', common.run_impl_py), ('js', common.run_impl_js)):
+        outs = [engine_corr.parse_out(o) for o in runner(lines)]
+        nbad = 0
+        for (q, t), m, o in zip(specs, mout, outs):
+            res.evaluations += 1
+            res.nontrivial.add(('bnr-only', impl_name, t))
+            if engine_corr.canon_cells(o.get('rows')) != engine_corr.canon_cells(m.get('rows')) or (o.get('err') is None) != (m.get('err') is None):
+                nbad += 1
+                if nbad <= 2:
+                    res.violations.append({'property': 'C04', 'impl': impl_name, 'why': 'a join used through the record number of the join table alone', 'query': t, 'A': A2 if q.get('where') else A, 'B': B,
+                                           'model_says': m, 'impl_says': o, 'case_key': 'C04|bnr-only|%s|%s' % (impl_name, t)})
+    res.count('record_number_only_cases', len(specs))
+
+
 def run(res, tier, seed):
     res.rule = RULE
+    record_number_only_check(res)
     res.assumptions = ["keys are compared with Python == ('1' != 1)"]
     rnd = random.Random(seed * 5800079 + 4)
     cases = gen_cases(rnd, 14000 if tier == 'quick' else 150000)
